@@ -67,7 +67,45 @@ def _canon(x):
     return ("arr", a.shape, a.dtype.str, a.tobytes())
 
 
+def _scipy_options_untouched(a):
+    """Options handed over in a dictionary are the caller's: fitting (also a fit that SciPy refuses) leaves the dictionary and get_params as they
+    were, and the same object re-configured and refitted behaves like a fresh one with those options."""
+    args = {"fill_value": -999.0, "rescale": True}
+    original = dict(args)
+    g = vd.ScipyGridder(method="nearest", extra_args=args)
+    try:
+        g.fit((a["e"], a["n"]), a["d"])
+    except TypeError:
+        pass      # (NearestNDInterpolator takes no fill_value: refused by SciPy)
+    if args != original or g.get_params()["extra_args"] != original:
+        raise RuntimeError(f"fit changed the options dictionary it was given: {original} -> {args}")
+    g.set_params(method="linear")
+    g.fit((a["e"], a["n"]), a["d"])
+    out = (np.array([a["e"].max() + 50.0]), np.array([a["n"].max() + 50.0]))
+    fresh = vd.ScipyGridder(method="linear", extra_args=dict(original)).fit((a["e"], a["n"]), a["d"])
+    if not np.array_equal(g.predict(out), fresh.predict(out)) or args != original:
+        raise RuntimeError("an estimator re-configured and refitted differs from a fresh one with the same options")
+    return g.predict((a["e"][:4], a["n"][:4]))
+
+
+def _table_columns_in_order(a):
+    """Columns of grid_to_table come in a defined order - dimension coordinates, then the other coordinates as the grid lists them, then the
+    variables - in every interpreter session (nothing hangs on a set's iteration order, which changes with the hash seed)."""
+    e, n = np.arange(4.0), np.arange(3.0) * 2.0
+    z = np.arange(12.0).reshape(3, 4)
+    names = ["zeta", "alpha", "mid", "beta", "omega"]
+    ds = xr.Dataset({"v": (("northing", "easting"), z), "a": (("northing", "easting"), -z)}, coords={"easting": e, "northing": n})
+    ds = ds.assign_coords({k: (("northing", "easting"), z * (i + 2)) for i, k in enumerate(names)})
+    t = vd.grid_to_table(ds)
+    want = ["northing", "easting"] + names + ["v", "a"]
+    if list(t.columns) != want:
+        raise RuntimeError(f"grid_to_table columns {list(t.columns)} instead of {want}")
+    return t.values
+
+
 CALLABLES = {
+    "ScipyGridder-options-dictionary": _scipy_options_untouched,
+    "grid_to_table-column-order": _table_columns_in_order,
     "inside-arrayregion": lambda a: vd.inside((a["e"], a["n"]), a["reg2"]),
     "pad_region-arrays": lambda a: vd.pad_region(a["reg"], a["pad"]),
     "scatter_points-arrayregion": lambda a: vd.scatter_points(a["reg"], 7, random_state=3),
